@@ -24,7 +24,7 @@ def b01 (b : Bool) : String := if b then "1" else "0"
 
 def render (eq : Bool) (c : Ordering) : String :=
   let cs := C19.cmpChar c
-  s!"E={b01 eq};NE={b01 (!eq)};LT={b01 (c == .lt)};LE={b01 (c != .gt)};GT={b01 (c == .gt)};GE={b01 (c != .lt)};CMP={cs};REFEQ={b01 eq};REFCMP={cs};PCMP={cs};MAX={if c == .gt then "a" else "b"};MIN={if c == .gt then "b" else "a"}"
+  s!"E={b01 eq};NE={b01 (!eq)};LT={b01 (c == .lt)};LE={b01 (c != .gt)};GT={b01 (c == .gt)};GE={b01 (c != .lt)};CMP={cs};REFEQ={b01 eq};REFCMP={cs};PCMP={cs};MAX={if c == .gt then "a" else "b"};MIN={if c == .gt then "b" else "a"};NEGEQ={b01 eq};NEGCMP={C19.cmpChar (Ordering.rev c)};ABSSELF=11"
 
 def handle (op : String) (args : List String) (impl : String) : Verdict :=
   match op, args with
